@@ -720,6 +720,7 @@ func c12Ids(g, per int, variant string) string {
 	var proc engine.Processor
 	var procTask func(tid uint64) // what the processor's rule does in the current phase
 	cycles := 0                   // restarts of the pool after the first phase
+	var replace func()            // variant x: what happens between the phases
 	switch variant[0] {
 	case 'e':
 		erp := interpreter.NewECALRuntimeProvider("c12", nil, &memLog{})
@@ -740,6 +741,12 @@ func c12Ids(g, per int, variant string) string {
 		tp = proc.ThreadPool()
 		next = erp.NewThreadID
 		cycles, _ = strconv.Atoi(variant[1:])
+	case 'x': // ids before and after erp.Processor is REPLACED: unique per pool only (two phases)
+		erp := interpreter.NewECALRuntimeProvider("c12", nil, &memLog{})
+		defer erp.Cron.Stop()
+		next = erp.NewThreadID
+		cycles = 1
+		replace = func() { erp.Processor = engine.NewProcessor(g) }
 	case 'r': // bare pool life-cycle: SetWorkerCount … JoinAll, again
 		tp = pool.NewThreadPool()
 		next = tp.NewThreadID
@@ -752,6 +759,9 @@ func c12Ids(g, per int, variant string) string {
 	dup, zero, n, wk, wdup := 0, 0, 0, 0, 0
 	_ = procTask
 	for phase := 0; phase <= cycles; phase++ {
+		if phase > 0 && replace != nil {
+			replace()
+		}
 		got := make([][]uint64, g)
 		gate := make(chan struct{})
 		var ready, wg sync.WaitGroup
@@ -889,6 +899,10 @@ func init() {
 					g.Emit(fmt.Sprintf("I %d %d 0 %s", n, 30000/n+1, v))
 				}
 			}
+			// ids are unique per POOL: replacing erp.Processor (an exported field) starts a new generator
+			g.Count("mode I")
+			g.Count("id-generator after the processor was replaced")
+			g.Emit("I 4 1000 0 x")
 			// a thread whose id was handed out before a restart of the pool sits in the blocks
 			// that the sinks on the restarted workers use
 			for _, n := range []int{4, 8, 16} {
